@@ -234,6 +234,16 @@ def run(c, chk):
     layout_by_type(c, chk)
     indent_writer(c, chk)
     builtin_formatter(c, chk)
+    if not isinstance(chk, report.SubCheck):
+        # R19.11: "a per-option print callback replaces the built-in formatting" - for the option the printer visits, which is a
+        # copy of the declared one: the copy carries the callback of the declaration (rule R14.8 of C14)
+        from . import c14 as _c14p, c08 as _c08p
+        chk.rule('R19.11', 'a print callback set in the schema reaches every context and section instance made from it (rule R14.8 of C14: the duplicator carries every callback member)')
+        class _OnlyPf(_c08p.chk_proxy):
+            def fail(self, rule, key, *a, **kw):
+                if key.endswith(':pf'):        # the other callback members are not this property's business
+                    return _c08p.chk_proxy.fail(self, rule, key, *a, **kw)
+        _c14p.callbacks_travel(c, _OnlyPf(chk, {'R14.8': 'R19.11'}))
     chk.rule('R19.8', 'a print callback registered by name lands on the option the printer will visit: the name is resolved by cfg_getopt(), not by the schema-template walker')
     spf = c.need('cfg_set_print_func')
     cal = set(x.callee_name() for x in c.deep_calls(spf))
